@@ -1,25 +1,234 @@
 //! incremental-map diff-based operators (C15, C17, C18)
 //!
 //! Entry points used by `plan.rs` (keep these four signatures).
+//!
+//! # Families
+//!
+//! ## World `MapsWorld` (C15 + C17; arm with `armed=C15` / `armed=C17`; same families for both)
+//!
+//! A program is (operator, map type, `shared`, `via`, K, `rounds`). `shared`: new input values
+//! are edits of a clone of the variable's current value (structure sharing with the operator's
+//! stored old input; `OrdMap` programs only). `via`: the output is observed through a
+//! downstream identity `map`, so the operator's self-reported `did_change` matters. Maps: all
+//! 3^K maps over keys `0..K` x values {1,2}.
+//!
+//! Program sets (`<set>`):
+//! * `single` — 66 programs, K=3: map, filter_map, mapi, filter_mapi, 4 x fold (update x
+//!   revert_to_init), 4 x ClosureFold (pairwise cover of update / revert / initial) on bt, rc,
+//!   om, om+shared; filter_mapi / fold.u0r1 / fold.u1r0 again with `via`; partition,
+//!   partition_mapi (+via) on om, om+shared.
+//! * `core`   — 18 of those: one per implementation path and map type (filter_mapi, fold.u0r1,
+//!   fold.u1r0, cfold.u1r*i1, partition_mapi; no `via`).
+//! * `merge`  — 6 programs, K=2: incr_merge on bt, om, om+shared, each also with `via`.
+//! * `all`    — `single` + `merge`.
+//! * `<op>-<mt>[-shared][-via]` — one program, e.g. `filter_mapi-om-shared`,
+//!   `fold.u1r0-rc-via`, `cfold.u0r1i1-bt`, `merge-bt`.
+//! * suffix `-k<N>` overrides K: `single-k2`, `single-k4`, `merge-k3`, `merge-bt-k1`.
+//!
+//! Two alphabets:
+//! * `c15/<set>` — **pruned BFS** over elementary actions `Stabilise`, `ToggleObserver`,
+//!   `Set(side, m)` for every map m (K=3: 29 actions; merge K=2: 20). The digest is the engine
+//!   dump (which shows old outputs) + the model (current input, previously processed input,
+//!   observer state, last read). The operators' old *input* lives in a closure that no dump can
+//!   see; the model's copy stands in for it. That is exact as long as the engine keeps the two in
+//!   sync — a defect that silently desynchronises them can be hidden by pruning (seeded mutant:
+//!   `old_input` never refreshed is NOT found by this family, at any depth). Hence:
+//! * `c15/rounds-<set>` — **unpruned** round-structured histories (E1): one action = [toggle the
+//!   observer]; set every input to any map; stabilise (K=3: 54 actions, merge K=2: 162).
+//!   `canon()` is `None` for these programs; run them with `noprune`. Depth L = number of
+//!   rounds; L=3 covers every (previous, current) input pair from initial and non-initial
+//!   operator states, with and without an unobserved round in between.
+//!
+//! `c15/single` reaches its fixpoint (all 66 programs exhausted) at depth 14-16: 2.23 M states,
+//! 64 M transitions. `c15/merge` does not within reach (K=2: 295 k states per program at depth 8).
+//!
+//! Recommended (CPU seconds are single-core, release profile, measured on a loaded machine):
+//! * quick:    `c15/rounds-single` 3 noprune (10.6 M transitions, ~125 s), `c15/single` 7 (10.0 M,
+//!             ~170 s), `c15/merge` 6 (0.9 M, ~25 s), `c15/rounds-merge` 2 noprune (0.16 M, 3 s);
+//!             dbg: `c15/single` 4, `c15/rounds-single-k2` 3.
+//! * thorough: `c15/single` 16 (fixpoint, ~1600 s), `c15/rounds-single` 3, `c15/rounds-core` 4
+//!             noprune (+`split_first`; 18 x 8.7 M histories), `c15/merge` 8 (+`split_first`),
+//!             `c15/rounds-merge` 3 noprune with `split_first` (4.25 M histories per program:
+//!             over the default `max_states` without the split), `c15/rounds-merge-k1` 5
+//!             noprune, `c15/single-k4` 6.
+//!
+//! ## Direct enumeration families (C18; no BFS; the job's *depth* field is the size parameter)
+//!
+//! Each has 27 units (items are dealt to units by the index of the first enumerated map).
+//!
+//! * `c18/pairs-bt`, `c18/pairs-rc`, `c18/pairs-om` [`-shared`] — depth = K: all 9^K ordered pairs of maps over K
+//!   keys x 2 values through `SymmetricFoldMap::symmetric_fold`. Quick K=5, thorough K=7.
+//!   `-shared`: the second map is an edited clone of the first (pointer / node sharing).
+//! * `c18/merge-quads-bt`, `c18/merge-quads-om` [`-shared`] — depth = K: all 81^K quadruples
+//!   (old left, old right, new left, new right) through a fresh `incr_merge` graph, two
+//!   stabilises, judged on the merge function's call log (also C15 on the two outputs).
+//!   Quick K=3 (531 441), thorough K=4 (43 046 721).
+//! * `c18/big-om` — depth = N: `OrdMap`s with several tree nodes: base {0,2,..,2(N-1)}, all pairs
+//!   of single edits (remove / change / insert at every position, removal of runs of 8 and 40
+//!   keys) applied to the shared base, second map also rebuilt from scratch. Quick N=100,
+//!   thorough N=300. (Deterministic enumeration over a structured larger domain; it does not
+//!   address the "randomly over larger ones" clause.)
+//!
+//! # Slack deliberately left (see comments at the oracles)
+//!
+//! * Histories: an observer that was created since the last stabilise can be dropped again only
+//!   once before the next stabilise (each such pair leaves a dead entry in the engine's
+//!   new-observer queue; unbounded churn would make the pruned state space infinite).
+//! * C17: in the first round after the observer was re-attached, touching every key of the
+//!   current input once is accepted ("(re)initialising ... may process every key once"); the
+//!   witness counter `slack_reinit_used` says whether that ever happened (current engine: 0).
+//! * C17: a call for a key that was removed (`Left`) is accepted (its presence differs) even
+//!   though the engine never calls map functions for removed keys; which of add / remove /
+//!   update is used for a key is not judged (C15's injective fold weights catch wrong ones).
+//! * C17: user-function calls outside a stabilise are only counted (`calls_outside_stabilise`).
+
+mod c18;
+mod domain;
+mod rig;
+mod world;
 
 use crate::core::{Cfg, Violation};
 use crate::explore::{Marker, Stats};
 use crate::plan::{JobDef, Tier};
+use domain::{Mt, Op};
 use serde_json::Value as Json;
 use std::time::Instant;
+use world::{MapsWorld, Prog};
 
-pub fn units(_job: &JobDef, _tier: Tier) -> usize {
-    0
+fn single_programs(k: u8) -> Vec<Prog> {
+    let mut out = vec![];
+    let p = |op: Op, mt: Mt, shared: bool, via: bool| Prog { op, mt, shared, via, k, rounds: false };
+    for (mt, shared) in [(Mt::Bt, false), (Mt::Rc, false), (Mt::Om, false), (Mt::Om, true)] {
+        for op in [Op::Map, Op::FilterMap, Op::Mapi, Op::FilterMapi] {
+            out.push(p(op, mt, shared, false));
+        }
+        out.push(p(Op::FilterMapi, mt, shared, true));
+        for (update, revert) in [(false, false), (false, true), (true, false), (true, true)] {
+            out.push(p(Op::Fold { update, revert }, mt, shared, false));
+        }
+        out.push(p(Op::Fold { update: false, revert: true }, mt, shared, true));
+        out.push(p(Op::Fold { update: true, revert: false }, mt, shared, true));
+        for (update, revert, initial) in [(false, false, false), (true, true, false), (false, true, true), (true, false, true)] {
+            out.push(p(Op::CFold { update, revert, initial }, mt, shared, false));
+        }
+    }
+    for shared in [false, true] {
+        out.push(p(Op::Partition, Mt::Om, shared, false));
+        out.push(p(Op::PartitionMapi, Mt::Om, shared, false));
+        out.push(p(Op::PartitionMapi, Mt::Om, shared, true));
+    }
+    out
 }
 
-pub fn run_unit(_job: &JobDef, _job_ix: u32, _unit: usize, _tier: Tier, _deadline: Option<Instant>, _marker: &Marker, stats: &mut Stats) {
-    stats.machinery_errors.push("world not implemented".into());
+fn merge_programs(k: u8) -> Vec<Prog> {
+    let mut out = vec![];
+    for (mt, shared) in [(Mt::Bt, false), (Mt::Om, false), (Mt::Om, true)] {
+        for via in [false, true] {
+            out.push(Prog { op: Op::Merge, mt, shared, via, k, rounds: false });
+        }
+    }
+    out
 }
 
-pub fn replay(_cfg: &Cfg, _prog: &Json, _history: &[Json]) -> Result<(Vec<(usize, Violation)>, Vec<String>, u64), String> {
-    Err("world not implemented".into())
+/// Programs of a BFS family (empty: unknown name).
+fn programs(family: &str) -> Vec<Prog> {
+    let Some(rest) = family.strip_prefix("c15/").or_else(|| family.strip_prefix("c17/")) else {
+        return vec![];
+    };
+    if let Some(r) = rest.strip_prefix("rounds-") {
+        let mut v = programs(&format!("c15/{r}"));
+        for p in v.iter_mut() {
+            p.rounds = true;
+        }
+        return v;
+    }
+    // optional -k<N>
+    let (rest, k) = match rest.rsplit_once("-k") {
+        Some((r, n)) if n.parse::<u8>().is_ok() => (r, Some(n.parse::<u8>().unwrap())),
+        _ => (rest, None),
+    };
+    match rest {
+        "single" => return single_programs(k.unwrap_or(3)),
+        "core" => {
+            // one representative per implementation path and map type
+            let core = |p: &Prog| {
+                !p.via
+                    && match p.op {
+                        Op::FilterMapi | Op::PartitionMapi => true,
+                        Op::Fold { update, revert } => update != revert,
+                        Op::CFold { update, initial, .. } => update && initial,
+                        _ => false,
+                    }
+            };
+            return single_programs(k.unwrap_or(3)).into_iter().filter(core).collect();
+        }
+        "merge" => return merge_programs(k.unwrap_or(2)),
+        "all" => {
+            let mut v = single_programs(k.unwrap_or(3));
+            v.extend(merge_programs(k.unwrap_or(2)));
+            return v;
+        }
+        _ => {}
+    }
+    // <op>-<mt>[-shared][-via]
+    let mut parts: Vec<&str> = rest.split('-').collect();
+    let mut via = false;
+    let mut shared = false;
+    while let Some(last) = parts.last() {
+        match *last {
+            "via" => via = true,
+            "shared" => shared = true,
+            _ => break,
+        }
+        parts.pop();
+    }
+    if parts.len() != 2 {
+        return vec![];
+    }
+    let (Some(op), Some(mt)) = (Op::parse(parts[0]), Mt::parse(parts[1])) else {
+        return vec![];
+    };
+    if !op.defined_on(mt) {
+        return vec![];
+    }
+    let k = k.unwrap_or(if op == Op::Merge { 2 } else { 3 });
+    vec![Prog { op, mt, shared, via, k, rounds: false }]
 }
 
-pub fn history_from_choices(_job: &JobDef, _unit: usize, _tier: Tier, _choices: &[u16]) -> Option<(Json, Vec<Json>)> {
-    None
+pub fn units(job: &JobDef, _tier: Tier) -> usize {
+    if c18::parse_family(&job.family).is_some() {
+        return c18::UNITS;
+    }
+    crate::driver::units::<MapsWorld>(&programs(&job.family), job)
+}
+
+pub fn run_unit(job: &JobDef, job_ix: u32, unit: usize, _tier: Tier, deadline: Option<Instant>, marker: &Marker, stats: &mut Stats) {
+    if let Some(fam) = c18::parse_family(&job.family) {
+        if unit >= c18::UNITS {
+            stats.machinery_errors.push(format!("unit {unit} out of range for {}", job.family));
+            return;
+        }
+        c18::run_unit(&fam, &job.cfg(), job.depth, unit, (job_ix, unit as u32), deadline, marker, stats);
+        return;
+    }
+    let progs = programs(&job.family);
+    if progs.is_empty() {
+        stats.machinery_errors.push(format!("unknown maps family {}", job.family));
+        return;
+    }
+    crate::driver::run_unit::<MapsWorld>(&progs, job, job_ix, unit, deadline, marker, stats)
+}
+
+pub fn replay(cfg: &Cfg, prog: &Json, history: &[Json]) -> Result<(Vec<(usize, Violation)>, Vec<String>, u64), String> {
+    if prog.get("c18").is_some() {
+        return c18::replay(cfg, prog);
+    }
+    crate::driver::replay::<MapsWorld>(cfg, prog, history)
+}
+
+pub fn history_from_choices(job: &JobDef, unit: usize, _tier: Tier, choices: &[u16]) -> Option<(Json, Vec<Json>)> {
+    if let Some(fam) = c18::parse_family(&job.family) {
+        return c18::prog_from_choices(&fam, job.depth, choices).map(|p| (p, vec![serde_json::json!("check")]));
+    }
+    crate::driver::history_from_choices::<MapsWorld>(&programs(&job.family), job, unit, choices)
 }
